@@ -14,7 +14,7 @@ RULE = ("all signatures of length <= 2 (sampled at length 3) over the kinds {QUB
         "emulation) and stretched variants (one extra trailing float, parent's unitary for every factor) for a native set with unitaries; "
         "non-trivial = at least one argument does not fit or the arity is wrong")
 BOUND = "signature length <= 3, 13 value classes per position"
-BUDGET_S = {"quick": 40, "thorough": 600}
+BUDGET_S = {"quick": 40, "thorough": 400}
 
 KINDS = ["QUBIT", "REGISTER", "INT", "FLOAT", "NONE"]
 
